@@ -318,6 +318,15 @@ func (w *kworld) checkGrants(rec *callRec) {
 		}
 	}
 	for _, g := range gs {
+		if g.expired && g.bounded && g.waited < g.given {
+			// its context ended before its own deadline although the caller never
+			// cancels: somebody else's failure took it down
+			w.r.Probe("key_request_cancelled_by_a_sibling")
+			w.r.Violate("C19", "fetchkeys", "cancelled_by_a_sibling", "the %s request for %s had its context ended after %v although it had been granted %v and the caller never cancels: another server's failure cancelled it, and its keys are missing from the union", g.kind, g.server, g.waited, g.given)
+			// the same fact read as C12's clause: a fetcher able to answer was kept from answering
+			w.r.Violate("C12", "completeness", "fetch_cancelled_by_a_sibling", "the %s request for %s was cancelled after %v (granted %v) although the caller never cancels: the fetcher was able to supply that server's keys and was kept from doing so by another server's failure", g.kind, g.server, g.waited, g.given)
+			return
+		}
 		if g.expired && g.bounded && g.given < most[g.kind] && g.lat < most[g.kind] && g.waited < most[g.kind] {
 			w.r.Probe("key_request_starved_by_its_batch")
 			w.r.Violate("C19", "fetchkeys", "deadline_shared_between_servers", "the %s request for %s was given %v (its server answers in %v) while another request of the same call was given %v: its keys are missing from the union only because of the other servers in the batch", g.kind, g.server, g.given, g.lat, most[g.kind])
